@@ -268,7 +268,16 @@ pub fn cfgs_c15() -> Vec<SrvCfg> {
     c.push(Act::PutImm { src: 2, v: 0, tok: Tok::Guess(0) });
     c.push(Act::Announce { src: 3, ih: 0, port: 5, implied: None, tok: Tok::Guess(0) });
     c.push(Act::Tick(5 * MIN + SEC));
-    vec![base("c15-tokens", a, p), base("c15-writes-only", b, p), base("c15-guesses", c, p)]
+    // a token issued to one IP presented from each of the 32 addresses one bit away from it
+    let mut d = vec![Act::Get { src: 0, target: 3, seq: None }];
+    for bit in 0..32u8 {
+        d.push(Act::PutImm { src: crate::srv::NEIGHBOURS_FROM + bit, v: 0, tok: Tok::Of(0) });
+    }
+    for bit in [0u8, 9, 17, 26, 31] {
+        d.push(Act::Announce { src: crate::srv::NEIGHBOURS_FROM + bit, ih: 0, port: 5, implied: None, tok: Tok::Of(0) });
+    }
+    d.push(Act::PutImm { src: 0, v: 0, tok: Tok::Fresh });
+    vec![base("c15-tokens", a, p), base("c15-writes-only", b, p), base("c15-guesses", c, p), base("c15-ip-neighbours", d, p)]
 }
 
 pub fn cfgs_c20() -> Vec<SrvCfg> {
@@ -432,7 +441,12 @@ pub fn run_cfgs_bound(cfgs: Vec<SrvCfg>, depth: usize, max_states: usize, replay
         let name = cfg.name;
         let n_actions = cfg.alphabet.len();
         let init = SrvState::new(cfg);
-        let depth = if name == "c15-writes-only" { depth + 4 } else { depth };
+        let depth = match name {
+            "c15-writes-only" => depth + 4,
+            // every neighbour right after the token was issued, and after one more request
+            "c15-ip-neighbours" => 2,
+            _ => depth,
+        };
         let bfs = Bfs { max_depth: depth, max_states, threads: super::cores(), collect_paths: replay_budget > 0 };
         let mut part = Partial::default();
         let stats = bfs.run(vec![init], &mut part);
